@@ -14,10 +14,14 @@
 (* prediction only.                                                                                                                   *)
 EXTENDS Naturals, Sequences
 
-Segs == {"plain", "deep", "hidden_dir", "tools_typeshare", "tools_other", "other_typeshare", "dotignore", "gitignore", "link_dir", "dir_named_rs"}
+\* named_*: directories whose NAME means something to other tools (cargo's target, node_modules, vendor, build) and nothing to typeshare:
+\* unless an ignore file of the tree says otherwise they are ordinary directories - a directory module src/target/mod.rs is read
+Segs == {"plain", "deep", "hidden_dir", "tools_typeshare", "tools_other", "other_typeshare", "dotignore", "gitignore", "link_dir", "dir_named_rs",
+         "named_target", "named_target_deep", "named_node_modules", "named_vendor", "named_build"}
 FNames == {"plain", "hidden_file", "upper_ext", "bak", "no_ext", "link_file"}
 
-OrdinaryDirs(seg) == seg \in {"plain", "deep", "tools_other", "other_typeshare", "dir_named_rs"}
+OrdinaryDirs(seg) == seg \in {"plain", "deep", "tools_other", "other_typeshare", "dir_named_rs",
+                              "named_target", "named_target_deep", "named_node_modules", "named_vendor", "named_build"}
 RustFile(f) == f \in {"plain", "hidden_file", "link_file"}          \* the name ends in .rs (a link to a regular file counts as the file)
 OrdinaryFile(f) == f \in {"plain", "link_file"}                     \* ... and is visible
 
